@@ -1,7 +1,7 @@
 // C03 — aliased parameters track their source through every update, copy and renaming
 // VF-VARIANT: san
-// VF-RULE: E1: breadth-first exploration of all histories over one AbstractParameterAliasable object with N parameters: aliasParameters(i,j) for all ordered pairs incl. i==j, unaliasParameters(i,j), bulk aliasParameters(map) for every name map with <= 3 (N=3) / <= 2 (N=4) entries, setParameterValue, setParametersValues / matchParametersValues with every sub-list over values {1,2,3}, setAllParametersValues, copy-construction (continue on the copy; and transient copy mutated to show independence), assignment into objects with three different pre-existing alias forests (continue on the assigned object; and transient), setNamespace. Three constraint configurations. Non-trivial: the transition changed the canonical state or was refused.
-// VF-BOUND: quick: N=3 without constraints to closure, N=3 mixed constraints to depth 3, N=4 to depth 2, N=4 to depth 3 over the link-centred alphabet (alias, unalias, bulk alias, single-value updates, copy/assign/rename); thorough: N=3 to closure in all three constraint configurations, N=4 to depth 4, N=4 link-centred alphabet to depth 5; instead of 2..6 parameters; values {1,2,3} inside every intersected constraint
+// VF-RULE: E1: breadth-first exploration of all histories over one AbstractParameterAliasable object with N parameters: aliasParameters(i,j) for all ordered pairs incl. i==j, unaliasParameters(i,j), bulk aliasParameters(map) for every name map with <= 3 (N=3) / <= 2 (N=4) entries, setParameterValue, setParametersValues / matchParametersValues with every sub-list over values {1,2,3}, setAllParametersValues, copy-construction (continue on the copy; and transient copy mutated to show independence), assignment into objects with three different pre-existing alias forests (continue on the assigned object; and transient), setNamespace. Four constraint configurations (none; all equal; different nested intervals; one bound value shared with different open/closed ends, so that the intersection has to combine the end flags). Non-trivial: the transition changed the canonical state or was refused.
+// VF-BOUND: quick: N=3 without constraints to closure, N=3 mixed constraints to depth 3, N=3 shared-bound/different-strictness constraints to depth 2, N=4 to depth 2, N=4 to depth 3 over the link-centred alphabet (alias, unalias, bulk alias, single-value updates, copy/assign/rename); thorough: N=3 to closure in all three constraint configurations, N=4 to depth 4, N=4 link-centred alphabet to depth 5; instead of 2..6 parameters; values {1,2,3} inside every intersected constraint
 // VF-LEVEL: Explicit-state closure of the alias protocol on the real object for 3 parameters (every history of any length over the alphabet), depth-bounded for 4, against a parent-array reference model; every bulk-alias call runs under a CPU-time alarm so non-termination is reported with the map as witness.
 // VF-ASSUME: ASan/UBSan/libstdc++ assertions are sound detectors;; reference model: parent array + values + per-parameter interval; aliasing does not copy the value at alias time (only later changes of the source propagate), as implemented and as the statement words it;; bulk aliasing is judged on termination, on performing every requested link when it returns, and on leaving a consistent object when it raises (partial application before a raise is allowed)
 // VF-BUDGET_THOROUGH: 3000
@@ -14,12 +14,24 @@ using vf::str; using vf::num;
 
 static std::string pname(int i) { return std::string(1, char('a' + i)); }
 
-struct MC { bool has; double lb, ub; bool operator==(const MC& o) const { return has == o.has && (!has || (lb == o.lb && ub == o.ub)); } };
-static MC consCfg(int cfg, int i) { if (cfg == 0) return {false, 0, 0}; if (cfg == 1) return {true, 0, 10}; switch (i % 4) { case 0: return {true, 0, 10}; case 1: return {true, 1, 5}; case 2: return {false, 0, 0}; default: return {true, 0, 10}; } }
+struct MC { bool has; double lb, ub; bool il = true, iu = true;   // il/iu: the bound itself is accepted (closed end)
+  bool operator==(const MC& o) const { return has == o.has && (!has || (lb == o.lb && ub == o.ub && il == o.il && iu == o.iu)); }
+  std::string s() const { return has ? std::string(il ? "[" : "]") + num(lb) + "," + num(ub) + (iu ? "]" : "[") : std::string(); } };
+// textbook intersection of two intervals: the tighter bound wins with its own flag; on equal bounds the end is closed only if both are
+static MC meet(const MC& a, const MC& b) {
+  MC x; x.has = true;
+  if (a.lb > b.lb) { x.lb = a.lb; x.il = a.il; } else if (b.lb > a.lb) { x.lb = b.lb; x.il = b.il; } else { x.lb = a.lb; x.il = a.il && b.il; }
+  if (a.ub < b.ub) { x.ub = a.ub; x.iu = a.iu; } else if (b.ub < a.ub) { x.ub = b.ub; x.iu = b.iu; } else { x.ub = a.ub; x.iu = a.iu && b.iu; }
+  return x; }
+static MC ofReal(const std::shared_ptr<const IntervalConstraint>& ic) { MC m; m.has = ic != nullptr; m.lb = ic ? ic->getLowerBound() : 0; m.ub = ic ? ic->getUpperBound() : 0; m.il = ic ? !ic->strictLowerBound() : true; m.iu = ic ? !ic->strictUpperBound() : true; return m; }
+// configurations: 0 none; 1 all [0,10]; 2 mixed [0,10] / [1,5] / none / [0,10]; 3 one bound value shared with different strictness: [0,10] / ]0,10] / [0,10[ / ]0,5]
+static MC consCfg(int cfg, int i) { if (cfg == 0) return {false, 0, 0}; if (cfg == 1) return {true, 0, 10};
+  if (cfg == 3) switch (i % 4) { case 0: return {true, 0, 10, true, true}; case 1: return {true, 0, 10, false, true}; case 2: return {true, 0, 10, true, false}; default: return {true, 0, 5, false, true}; }
+  switch (i % 4) { case 0: return {true, 0, 10}; case 1: return {true, 1, 5}; case 2: return {false, 0, 0}; default: return {true, 0, 10}; } }
 
 struct Obj : public AbstractParameterAliasable {
   Obj(int n, int cfg, const std::string& ns) : AbstractParameterAliasable(ns) {
-    for (int i = 0; i < n; ++i) { MC c = consCfg(cfg, i); addParameter_(new Parameter(ns + pname(i), 1, c.has ? std::make_shared<IntervalConstraint>(c.lb, c.ub, true, true) : nullptr)); }
+    for (int i = 0; i < n; ++i) { MC c = consCfg(cfg, i); addParameter_(new Parameter(ns + pname(i), 1, c.has ? std::make_shared<IntervalConstraint>(c.lb, c.ub, c.il, c.iu) : nullptr)); }
   }
   Obj* clone() const override { return new Obj(*this); }
 };
@@ -34,11 +46,11 @@ struct Model {
     if (isAncestor(j, i)) return false;                 // i == j, or j is a (transitive) source of i: would close a cycle
     MC& c1 = cons[(size_t)i]; MC& c2 = cons[(size_t)j];
     if (!c1.has) { if (c2.has) c1 = c2; }
-    else if (c2.has && !(c1 == c2)) { MC x = {true, std::max(c1.lb, c2.lb), std::min(c1.ub, c2.ub)}; c1 = x; c2 = x; }
+    else if (c2.has && !(c1 == c2)) { MC x = meet(c1, c2); c1 = x; c2 = x; }
     parent[(size_t)j] = i; return true;
   }
   bool unalias(int i, int j) { if (i == j || parent[(size_t)j] != i) return false; parent[(size_t)j] = -1; return true; }
-  std::string s() const { std::string r = "ns=" + ns + ";"; for (int i = 0; i < n; ++i) r += pname(i) + "<-" + (parent[(size_t)i] < 0 ? "." : pname(parent[(size_t)i])) + "=" + num(val[(size_t)i]) + (cons[(size_t)i].has ? "[" + num(cons[(size_t)i].lb) + "," + num(cons[(size_t)i].ub) + "]" : "") + " "; return r; }
+  std::string s() const { std::string r = "ns=" + ns + ";"; for (int i = 0; i < n; ++i) r += pname(i) + "<-" + (parent[(size_t)i] < 0 ? "." : pname(parent[(size_t)i])) + "=" + num(val[(size_t)i]) + cons[(size_t)i].s() + " "; return r; }
 };
 
 // complete private state of the real object, addresses replaced by roles
@@ -136,7 +148,7 @@ struct Sys : vf::SysBase {
       if (p.getValue() != m.val[(size_t)i]) c.fail("audit|value-differs-from-model", where);
       int par = m.parent[(size_t)i];
       auto ic = std::dynamic_pointer_cast<const IntervalConstraint>(p.getConstraint());
-      MC rc = {ic != nullptr, ic ? ic->getLowerBound() : 0, ic ? ic->getUpperBound() : 0};
+      MC rc = ofReal(ic);
       if (!(rc == m.cons[(size_t)i])) c.fail("audit|constraint-differs-from-model", where + " at " + pname(i));
       if (ic && !ic->isCorrect(p.getValue())) c.fail("audit|value-outside-constraint", where);
       // listeners attached to this parameter = links whose source it is, each registered and bound to the object's own list
@@ -194,7 +206,7 @@ struct Sys : vf::SysBase {
         if (!consistent) { m2 = M; std::vector<int> todo; for (int j = 0; j < N; ++j) if (rp[(size_t)j] != M.parent[(size_t)j]) todo.push_back(j); bool prog = true; while (prog && !todo.empty()) { prog = false; for (size_t t = 0; t < todo.size(); ++t) { int j = todo[t]; if (M.parent[(size_t)j] < 0 && rp[(size_t)j] >= 0 && m2.alias(rp[(size_t)j], j)) { todo.erase(todo.begin() + (long)t); prog = true; break; } } } consistent = todo.empty(); }
         if (consistent) { M = m2; for (int i = 0; i < N; ++i) M.val[(size_t)i] = O->getParameters()[(size_t)i].getValue();
           // constraints after a chain of intersections depend on link order; adopt what the object holds, the audit still checks value-in-constraint and equality with sources
-          for (int i = 0; i < N; ++i) { auto ic = std::dynamic_pointer_cast<const IntervalConstraint>(O->getParameters()[(size_t)i].getConstraint()); M.cons[(size_t)i] = {ic != nullptr, ic ? ic->getLowerBound() : 0, ic ? ic->getUpperBound() : 0}; } }
+          for (int i = 0; i < N; ++i) { auto ic = std::dynamic_pointer_cast<const IntervalConstraint>(O->getParameters()[(size_t)i].getConstraint()); M.cons[(size_t)i] = ofReal(ic); } }
         else if (!c.muted && !c.failed) c.fail("bulk-alias|object-holds-links-no-sequence-of-legal-alias-calls-produces", on + " in " + before + " -> " + canonObj(*O));
         raised = false; refusedExpected = false;
         break; }
@@ -249,8 +261,8 @@ int main(int argc, char** argv) {
     R.explore(nm, depth, proto.nops(), [n, cfg] { return std::unique_ptr<Sys>(new Sys(n, cfg)); }, 2.0); };
   auto runReduced = [&](int n, int cfg, int depth) { Sys proto(n, cfg, true); std::string nm = "alias-histories:N" + str(n) + ":cons" + str(cfg) + ":link-centred-alphabet:d" + str(depth);
     R.explore(nm, depth, proto.nops(), [n, cfg] { return std::unique_ptr<Sys>(new Sys(n, cfg, true)); }, 2.0); };
-  if (!th) { run(3, 0, 64); run(3, 2, 3); run(4, 2, 2); runReduced(4, 2, 3); }
-  else { run(3, 0, 64); run(3, 1, 64); run(3, 2, 64); run(4, 2, 4); runReduced(4, 0, 5); }
+  if (!th) { run(3, 0, 64); run(3, 2, 3); run(3, 3, 2); run(4, 2, 2); runReduced(4, 2, 3); }
+  else { run(3, 0, 64); run(3, 1, 64); run(3, 2, 64); run(3, 3, 64); run(4, 2, 4); runReduced(4, 3, 4); runReduced(4, 0, 5); }
   R.expectSeen("aliasParameters->refused"); R.expectSeen("aliasParameters->done"); R.expectSeen("unaliasParameters->done"); R.expectSeen("bulk-alias->linked"); R.expectSeen("bulk-alias->raised");
   R.note("aliasing does not copy the value at alias time; a bulk update that names an aliased parameter directly is applied sequentially (the alias may then differ from its source until the source changes again)");
   R.note("getAliases maps every aliased parameter to one of its transitive sources (which one depends on register order); getAlias/getAliases are judged under the empty namespace only");
